@@ -20,10 +20,12 @@ open JsonV JsonV.Model
 /-- Error classes of the decoder side (DESIGN.md §4).  `ok` is Go's `nil`.
 `eof` is `io.ErrUnexpectedEOF` (truncated input), `ioEOF` is `io.EOF` (clean end of a stream);
 `mismatchDelim`, `maxDepth`, `dupName` come from package jsontext (Model/Validate.lean);
+`nonStringName`, `missingValue`, `invalidNamespace` are the remaining state-machine errors (Model/TokenLoop.lean);
 `fuel` and `bug` are artefacts of totalisation (out of fuel / Go `panic("BUG…")`), shown unreachable. -/
 inductive Err
   | ok | eof | invalidChar | invalidEscape | invalidUTF8
   | dupName | maxDepth | mismatchDelim | ioEOF | fuel | bug
+  | nonStringName | missingValue | invalidNamespace
   deriving DecidableEq, Repr, Inhabited
 
 /-- `jsonwire.ValueFlags`: bit 1 = stringNonVerbatim, bit 2 = stringNonCanonical. -/
